@@ -136,7 +136,10 @@ PLANS = {
               dict(suite='parse', srcgen=dict(quick=600, thorough=6000), mix='srcgen', n=1, projection='body', tags=['C01'], literal_oracle=True),
               dict(suite='e2e', n=dict(quick=300, thorough=6000), projection='identity', tags=['C01']),
               # the generated function is that of the template as it is now, whatever OUT_DIR held before
-              dict(suite='script', mix='history', n=dict(quick=50, thorough=500), projection='script+files', tags=['C01'])],
+              dict(suite='script', mix='history', n=dict(quick=50, thorough=500), projection='script+files', tags=['C01']),
+              # whole directories through compile_templates: every output file is the code for that template alone
+              # (a template must not inherit bytes from a sibling that was read before it)
+              dict(suite='script', mix='tree', n=dict(quick=60, thorough=600), projection='script+files', tags=['C01'])],
         correspondence='syntax tree of the parse and the body of the generated code vs Ructe.template / Ructe.writeRust; every printed text literal is decoded by the Lean model of rustc\'s literal lexer and compared with the text node',
         rule='every ASCII code point except @{} alone / at the start / middle / end of a run, at 7 nesting positions; random text over quotes, backslashes, CR/LF, NUL, controls, multi-byte scalars, escape look-alikes, the three escapes, comments; structured templates with their documented tree; non-trivial = distinct accepted syntax trees; long literal runs (130 .. 8200 bytes); histories (restored / renamed templates, residue in OUT_DIR): the generated function is that of the template as it is now',
         assumptions=['rustc lexes literals as the Rust Reference says (modelled by decodeStrLit / decodeByteStrLit; rustc itself is the judge in the e2e runs)'],
@@ -188,8 +191,8 @@ PLANS = {
     ),
     'C17': dict(
         module='RucteProps.C17',
-        extra_modules=['RucteProps.C17Rerun'],
-        theorems=['Ructe.C17.announced', 'Ructe.C17.pinned_add_files_as_counterexample',
+        extra_modules=['RucteProps.C17Rerun', 'RucteProps.C17Abort'],
+        theorems=['Ructe.C17.announced', 'Ructe.C17Abort.announcedA', 'Ructe.C17Abort.dead_entry_announced', 'Ructe.C17Abort.rerun_soundA', 'Ructe.C17Abort.no_rerun_nothing_staleA', 'Ructe.C17Abort.change_triggers_rerunA', 'Ructe.C17.pinned_add_files_as_counterexample',
                   'Ructe.C17Rerun.rerun_sound', 'Ructe.C17Rerun.no_rerun_nothing_stale', 'Ructe.C17Rerun.change_triggers_rerun',
                   'Ructe.C17Rerun.step_announces_root', 'Ructe.C17Rerun.resolve_congr'],
         runs=[dict(suite='script', mix='statics,tree', n=dict(quick=150, thorough=1500), projection='script+stdout', tags=['C17']),
@@ -205,22 +208,22 @@ PLANS = {
         correspondence='the lines printed to stdout by a whole build-script run (public API, child process) vs Ructe.build, given the same input tree and read_dir order',
         rule='random build scripts over compile_templates / add_file / add_files / add_file_as / add_files_as (nested sub-directories) / add_file_data on random trees (tmpfs and ext4, relative and absolute paths); oracle: every directory listed and every file read or embedded is covered by a cargo:rerun-if-changed line for itself or an ancestor. Suite rerun: after each run 2..3 single edits (modify / delete / add a file in an input directory, a sub-directory, a new sub-directory, an unrelated place; delete a directory; break a template; edit a Sass partial), each followed by a run into an empty OUT_DIR: if the result differs the edited path must be covered by a line of the last run cargo executed; for the first scenarios the tree is also a real cargo package and `cargo build --offline` itself decides whether to run the build script again; non-trivial = distinct run outputs',
         assumptions=['cargo re-runs a build script when a listed path, or anything under a listed directory, changes (cargo\'s documented rule, modelled as the `covered` predicate)', 'add_sass_file reads through rsass\' CargoContext, which prints its own lines: opaque to the model; the oracle on the implementation covers it (stylesheets importing partials from the same, a sub-, a sibling and a distant directory must have every loaded file announced)'],
-        level_text='Theorem announced (every path the model reads is covered by a printed line) over Ructe.build. The second half of the statement ("so that adding, editing or deleting an input makes cargo run the build script again") is proved over an explicit input tree (RucteModel/InFS.lean: what the operating system shows at a path; calls as written in build.rs): rerun_sound / no_rerun_nothing_stale - if the trees before and after ANY edit agree at every path the first run announced (cargo sees no reason to run the script again) then the script resolves to exactly the same calls, so nothing is stale; change_triggers_rerun - if a run on the edited tree would produce anything else (other bytes, other lines, a failure) then some announced path changed. cargo\'s rule itself (re-run iff the file at an announced path, or anything under an announced directory, changed) is the trusted part. Tie on the printed lines; oracle on the implementation with the harness\' own knowledge of the inputs.',
+        level_text='C17Abort: the same two statements for the run as the code does it, walks that are cut short by an entry that cannot be opened included (announcedA, dead_entry_announced, rerun_soundA, no_rerun_nothing_staleA, change_triggers_rerunA). Theorem announced (every path the model reads is covered by a printed line) over Ructe.build. The second half of the statement ("so that adding, editing or deleting an input makes cargo run the build script again") is proved over an explicit input tree (RucteModel/InFS.lean: what the operating system shows at a path; calls as written in build.rs): rerun_sound / no_rerun_nothing_stale - if the trees before and after ANY edit agree at every path the first run announced (cargo sees no reason to run the script again) then the script resolves to exactly the same calls, so nothing is stale; change_triggers_rerun - if a run on the edited tree would produce anything else (other bytes, other lines, a failure) then some announced path changed. cargo\'s rule itself (re-run iff the file at an announced path, or anything under an announced directory, changed) is the trusted part. Tie on the printed lines; oracle on the implementation with the harness\' own knowledge of the inputs.',
         level_note='Trusted: Lean kernel; hand-written model of lib.rs / staticfiles.rs on an abstract file system; cargo\'s rerun rule.',
         design_ref='DESIGN.md §6 C17',
     ),
     'C10': dict(
         module='RucteProps.C10',
-        extra_modules=['RucteProps.C10Tree', 'RucteProps.C18Order', 'RucteProps.C10Failed'],
+        extra_modules=['RucteProps.C10Tree', 'RucteProps.C18Order', 'RucteProps.C10Failed', 'RucteProps.C10Abort', 'RucteProps.C10FrameA'],
         needs_tables=['suffixes'],
-        theorems=['Ructe.C10Failed.failed_templates_call_disturbs_nothing', 'Ructe.C10Failed.failed_templates_call_same_outdir', 'Ructe.C10Failed.failed_static_call_disturbs_nothing', 'Ructe.C10Failed.failed_call_same_names', 'Ructe.C10Failed.step_frame', 'Ructe.C10.others_silent', 'Ructe.C10.valid_template_declared', 'Ructe.C10.broken_template_reported', 'Ructe.C10.subdir_declared', 'Ructe.C10.handleEntries_append', 'Ructe.C10.suffix_table', 'Ructe.C10.tree_mirror_file', 'Ructe.C10.subdir_mod_declared', 'Ructe.C10.template_fn_declared', 'Ructe.C10.decl_only_with_file', 'Ructe.C18.broken_isolated'],
+        theorems=['Ructe.C10FrameA.stepA_frame', 'Ructe.C10FrameA.failed_templates_call_disturbs_nothingA', 'Ructe.C10Abort.walkA_spec', 'Ructe.C10Abort.walkA_complete', 'Ructe.C10Abort.walkA_cut_prefix', 'Ructe.C10Abort.buildLogA_readable', 'Ructe.C10Abort.runScriptA_noDead', 'Ructe.C10Abort.dead_with_suffix_cuts', 'Ructe.C10Abort.dead_without_suffix_ignored', 'Ructe.C10Failed.failed_templates_call_disturbs_nothing', 'Ructe.C10Failed.failed_templates_call_same_outdir', 'Ructe.C10Failed.failed_static_call_disturbs_nothing', 'Ructe.C10Failed.failed_call_same_names', 'Ructe.C10Failed.step_frame', 'Ructe.C10.others_silent', 'Ructe.C10.valid_template_declared', 'Ructe.C10.broken_template_reported', 'Ructe.C10.subdir_declared', 'Ructe.C10.handleEntries_append', 'Ructe.C10.suffix_table', 'Ructe.C10.tree_mirror_file', 'Ructe.C10.subdir_mod_declared', 'Ructe.C10.template_fn_declared', 'Ructe.C10.decl_only_with_file', 'Ructe.C18.broken_isolated'],
         runs=[dict(suite='script', mix='tree', n=dict(quick=200, thorough=1500), projection='script+files+stdout', tags=['C10']),
               # the same promises when OUT_DIR is not empty: earlier builds, restored / renamed templates, residue
               dict(suite='script', mix='history', n=dict(quick=50, thorough=500), projection='script+files', tags=['C10'])],
         correspondence='the whole OUT_DIR (paths and bytes) and stdout of compile_templates on a directory tree vs Ructe.build given the observed read_dir order',
         rule='random trees to depth 4 with identifier stems / directory names, mixed suffixes, same stem under different suffixes, non-template files, empty directories, broken templates among valid ones; oracle: exactly the expected files, each the code generated for that template alone, declaration chains present, broken templates warned and undeclared; non-trivial = distinct run outputs; template files that are not valid UTF-8, empty stems, tail-pair names, symlinked templates; histories (the module tree of the incremental OUT_DIR is that of a clean build)',
         assumptions=['file and directory names are UTF-8', 'that the declared functions are callable at every depth is rustc\'s name resolution (e2e)'],
-        level_text='C10Failed: a call that fails (a template directory that is not there, ignored by the script) disturbs nothing: the run asks for exactly the files, bytes and order of the run without that call, from any prior OUT_DIR state (failed_templates_call_disturbs_nothing / _same_outdir, by a frame lemma step_frame: what a call writes never depends on what was printed or listed before). Proved by induction on the tree (no depth bound): tree_mirror_file, subdir_mod_declared, template_fn_declared, decl_only_with_file, broken_isolated, others_silent, valid_template_declared, broken_template_reported, subdir_declared, handleEntries_append; suffix_table over the list extracted from lib.rs on every run. Tie on the whole OUT_DIR + independent oracle on file set, contents, declarations and warnings.',
+        level_text='C10Abort: the walk as the code does it, including the entry that cannot be opened (a symbolic link to nothing under a template name: the error leaves handle_entries through `?`). walkA_spec: the walk either completes, and is then exactly the walk over the readable part of the tree, or is cut short, and then what it asked to be written is a prefix of what that walk writes and what it declared is a prefix of its declarations; runScriptA_noDead / buildLogA_readable: on trees where everything can be read the run as the code does it is the run all the other theorems are about. C10Failed: a call that fails (a template directory that is not there, ignored by the script) disturbs nothing: the run asks for exactly the files, bytes and order of the run without that call, from any prior OUT_DIR state (failed_templates_call_disturbs_nothing / _same_outdir, by a frame lemma step_frame: what a call writes never depends on what was printed or listed before). Proved by induction on the tree (no depth bound): tree_mirror_file, subdir_mod_declared, template_fn_declared, decl_only_with_file, broken_isolated, others_silent, valid_template_declared, broken_template_reported, subdir_declared, handleEntries_append; suffix_table over the list extracted from lib.rs on every run. Tie on the whole OUT_DIR + independent oracle on file set, contents, declarations and warnings.',
         level_note='Trusted: Lean kernel; hand-written model of lib.rs on an abstract file system.',
         design_ref='DESIGN.md §6 C10',
     ),
@@ -488,6 +491,12 @@ def parse_entries(s, i=0):
                 k += 1
             out.append((c, name, unhex(s[j + 1:k])))
             i = k
+        elif c == 'x':       # a symbolic link that cannot be read (to nothing / to a directory): the static calls skip it
+            j = i + 1
+            while j < len(s) and (s[j].isalnum() or s[j] == '-'):
+                j += 1
+            out.append(('x', unhex(s[i + 1:j]), b''))
+            i = j
         elif c == 'd':
             j = i + 1
             while j < len(s) and (s[j].isalnum() or s[j] == '-'):
@@ -951,6 +960,42 @@ def mime_oracle(res, feat):
     return fails
 
 
+GENERIC_ITEM_RE = re.compile(r'\n/// From (.*)\n#\[allow\(non_upper_case_globals\)\]\npub static (\S+): StaticFile = StaticFile \{\n(.*?)\n?\};', re.S)
+
+
+def struct_items(text):
+    """every `pub static X: StaticFile = StaticFile { .. }` item of a statics.rs as (from, name, mime constant), read the
+    way rustc reads a struct expression: a field that is not written is taken from the base of a struct update
+    (`..other_item`), transitively"""
+    items = {}
+    order = []
+    for m in GENERIC_ITEM_RE.finditer(text):
+        fields, base = {}, None
+        for line in m.group(3).split('\n'):
+            line = line.strip()
+            fm = re.match(r'^(\w+): (.*?),?$', line)
+            bm = re.match(r'^\.\.\s*&?\*?(\w+)\s*,?$', line)
+            if bm:
+                base = bm.group(1)
+            elif fm:
+                fields[fm.group(1)] = fm.group(2)
+        items[m.group(2)] = (m.group(1), fields, base)
+        order.append(m.group(2))
+
+    def field(ident, key, depth=0):
+        if ident not in items or depth > 50:
+            return None
+        _, fields, base = items[ident]
+        if key in fields:
+            return fields[key]
+        return field(base, key, depth + 1) if base else None
+    out = []
+    for ident in order:
+        mime = field(ident, 'mime')
+        out.append((items[ident][0], field(ident, 'name'), mime[1:] if mime and mime.startswith('&') else mime))
+    return out
+
+
 def items_mime_oracle(res, feat):
     """C19 on whole generated modules: every item of every statics.rs a run produced carries the registered type
     of the suffix of its *published name* (whatever entry point added it, incl. the CSS compiled by add_sass_file)"""
@@ -962,9 +1007,10 @@ def items_mime_oracle(res, feat):
         for path, text in answer_files(ans).items():
             if not path.endswith('/statics.rs'):
                 continue
-            for m in ITEM_RE.finditer(text.decode('utf-8', 'replace')):
+            for from_lit, name_lit, c in struct_items(text.decode('utf-8', 'replace')):
                 n += 1
-                from_lit, name_lit, c = m.group(1), m.group(4), m.group(5)
+                if name_lit is None:
+                    continue
                 name = name_lit.strip('"')
                 # a hashed name (`stem-<8 chars>.ext`) carries the file's suffix; a verbatim URL name (add_file_as)
                 # may be anything: there the suffix is that of the source file
